@@ -287,9 +287,9 @@ class Space:
                 out.append((self._mk_state(p.result, args, 0, [dict(op="simulate", args=args_key(args))]), p))
         return out
 
-    def generate(self, args, constraint: dict, max_paths=512):
+    def generate(self, args, constraint: dict, max_paths=512, chm=None):
         jargs = args if self.static_args else to_jax_args(args)
-        chm = make_chm(constraint)
+        chm = make_chm(constraint) if chm is None else chm
         fn = lambda: self._gen(self.key, chm, jargs)
         with seam.seam(self.n_cont):
             paths, stats = seam.explore(fn, max_paths=max_paths)
